@@ -16,7 +16,8 @@
    the Gauss-Jordan inversion model is correct (GaussJordan.v); the decoded bytes are also compared with
    the encoded source on the C side for every session of the correspondence. *)
 From Coq Require Import Arith List Bool.
-From OFV Require Import LdpcEnc ITModel ITProofs MLModel MLCorollaries.
+From Coq Require Import ZArith.
+From OFV Require Import LdpcEnc ITModel ITProofs MLModel MLCorollaries Sparse Params Pchk LdpcEndToEnd.
 Import ListNotations.
 
 Theorem ldpc_complete_implies_all_sources_available :
@@ -69,7 +70,33 @@ Theorem ldpc_finish_never_returns_a_wrong_symbol :
   forall c v, nth c (tab (o_st o)) None = Some v -> v = cw c.
 Proof. exact ml_session_values. Qed.
 
+(* end to end, from accepted parameters: the matrix the construction model builds, the codeword the encoder model
+   produces from the sources, any multiset of its symbols received in any order, the streaming decoder and
+   of_finish_decoding: every source symbol held at the end is the original one; OK iff all recovered iff
+   the received set determines the sources.  (Axioms: the stdlib real-number axioms, through the PRNG of the
+   construction model only.) *)
+Theorem ldpc_end_to_end_sources_are_the_original_ones :
+  forall (Sy : Type) (sxor : Sy -> Sy -> Sy) (s0 : Sy),
+  (forall a b c, sxor a (sxor b c) = sxor (sxor a b) c) -> (forall a b, sxor a b = sxor b a) ->
+  (forall a, sxor s0 a = a) -> (forall a, sxor a a = s0) -> (exists a : Sy, a <> s0) ->
+  forall (k r n1 : nat) (L seed g0 : Z) (fuel : nat) (m : smat) (extra : bool) (g : Z),
+  accept_ldpc (Z.of_nat k) (Z.of_nat r) L (Z.of_nat n1) seed = true ->
+  pchk fuel k r n1 seed g0 = Some (m, extra, g) ->
+  let H := Sparse.rws m in let N := k + r in
+  forall (srcs : nat -> Sy) (hist : list (nat * Sy)) (s : st Sy) (fuel' : nat) (perm : list nat) (o : outcome Sy),
+  (forall ev, In ev hist -> fst ev < N /\ snd ev = codeword Sy sxor s0 r H srcs (fst ev)) ->
+  run Sy sxor s0 H r N (S N) hist = Some s -> N < fuel' ->
+  (forall c, c < r -> In c perm) -> (forall c, In c perm -> c < r) ->
+  ml_finish sxor s0 fuel' perm s = Some o ->
+  (forall c v, r <= c < N -> nth c (tab (o_st o)) None = Some v -> v = srcs c) /\
+  (o_ok o = true <-> (forall c, r <= c < N -> known (o_st o) c = true)) /\
+  ((forall c, r <= c < N -> known (o_st o) c = true) <->
+   (forall z : nat -> bool, (forall i, i < r -> fold_right xorb false (map z (nth i H [])) = false) ->
+      (forall c, In c (map fst hist) -> z c = false) -> forall c, r <= c < N -> z c = false)).
+Proof. exact ldpc_end_to_end. Qed.
+
 Print Assumptions ldpc_complete_implies_all_sources_available.
+Print Assumptions ldpc_end_to_end_sources_are_the_original_ones.
 Print Assumptions ldpc_finish_never_returns_a_wrong_symbol.
 Print Assumptions ldpc_available_symbols_equal_codeword.
 Print Assumptions ldpc_available_symbols_are_justified_partial.
